@@ -195,6 +195,97 @@ def translate_bodies(force_snapshot: bool) -> str:
     return out.strip().split("\n")[-1] if out.strip() else f"exit {rc}"
 
 
+def tie_search(seed: int, tier: str) -> tuple[list, dict]:
+    """Model-guided search, used only when an equality of Lemmas/BodiesEq.lean no longer checks: run many generated
+    histories through DriverGen.lean, which evaluates the model's handlers and the GENERATED bodies (the code as
+    translated on this run) side by side; a step on which they differ is where the code left the model.  Returns the
+    diverging histories, cut after the diverging step and followed by a settling suffix (a wake signal of every
+    wake kind and a heartbeat for each node, then a probe line), as extra cases for the property's own run, which
+    replays them on the implementation and judges them with the property's oracle."""
+    from . import gw
+    import itertools
+    rng = lib.rng_for(seed, "tie-search")
+    n = 1500 if tier == "quick" else 12000
+    hists = []
+    for i in range(n):
+        v = lib.VERSIONS[i % 5]
+        hists.append(gw.gen_history(rng, v, rng.randint(4, 30), send_ratio=0.3, fault_ratio=0.05,
+                                    preload_p=0.6, cancel_ratio=0.1))
+    # bounded-exhaustive part: every history of <= 4 steps over a compact alphabet about one node (presentation, child,
+    # set, req, wake, report, held / direct sends, traffic from an unknown node), from three start states, and every
+    # history of <= 3 such steps followed by one message of every kind
+    T0 = gw.DEFAULT_TIME
+    def R(line, faults=()):
+        return ("recv", line, faults, T0)
+    def alphabet(v):
+        wake = "1;255;3;0;32;500" if v == "2.2" else "1;255;3;0;22;5"
+        return [R("1;255;0;0;17;2.0"), R("1;1;0;0;6;d"), R("1;1;1;0;2;on"), R("1;1;2;0;2;"), R(wake),
+                R("1;255;3;0;22;9") if v == "2.2" else R("1;255;3;0;0;55"), ("send", (1, 1, 1, 0, 2, "v1"), True, ()),
+                ("send", (1, 1, 1, 0, 3, "v2"), True, ()), R("1;255;3;0;11;name"), R("9;1;1;0;2;x")]
+    def kinds(v):
+        out = [R(f"1;255;3;0;{t};1") for t in range(0, 34)] + [R(f"1;255;4;0;{t};x") for t in range(0, 3)]
+        out += [R("255;255;3;0;3;"), R("0;255;3;0;2;" + v + ".1"), R("0;255;0;0;18;" + v), R("0;255;3;0;14;ready"),
+                R("1;1;1;0;2;off", (True,)), R("1;255;3;0;22;3" if v != "2.2" else "1;255;3;0;32;3", (True,)),
+                ("send", (1, 255, 3, 0, 13, ""), True, ()), ("send", (1, 1, 2, 0, 2, ""), True, ()), ("send", None, True, ())]
+        return out
+    starts = [[], [("node", 1, 17, "2.0", "", "", 0, 0, False, False), ("child", 1, 1, 1, 6, "d")],
+              [("node", 1, 17, "2.0", "", "", 0, 0, True, True), ("child", 1, 1, 1, 6, "d"), ("val", 1, 1, 2, "on")]]
+    deep = 4 if tier == "quick" else 5
+    for v in ("1.5", "2.1", "2.2"):
+        al, ks = alphabet(v), kinds(v)
+        for si, pre in enumerate(starts):
+            # full depth only from the richest start state under the 2.x protocols; one step less elsewhere
+            depth = deep if (si == 2 and v != "1.5") else deep - 1
+            for k in range(1, depth + 1):
+                for ops in itertools.product(al, repeat=k):
+                    hists.append(gw.Hist(v, True, list(pre), list(ops)))
+            for k in range(0, deep - 1):
+                for ops in itertools.product(al, repeat=k):
+                    for last in ks:
+                        hists.append(gw.Hist(v, True, list(pre), list(ops) + [last]))
+    n = len(hists)
+    lines, spans = [], []
+    for h in hists:
+        ml = gw.model_lines(h)
+        spans.append((len(lines), len(ml)))
+        lines.extend(ml)
+    # the driver is the bottleneck: cut the operation list at history boundaries and run the pieces in parallel
+    from concurrent.futures import ThreadPoolExecutor
+    pieces, cur, start = [], 0, 0
+    per = max(1, len(lines) // 14)
+    for a, k in spans:
+        if a + k - start >= per:
+            pieces.append((start, a + k))
+            start = a + k
+    if start < len(lines):
+        pieces.append((start, len(lines)))
+    with ThreadPoolExecutor(max_workers=14) as ex:
+        parts = list(ex.map(lambda ab: lib.run_model(lines[ab[0]:ab[1]], driver="DriverGen.lean", timeout=900), pieces))
+    outs = [o for part in parts for o in part]
+    found, info = [], {"histories": n, "steps": sum(len(h.ops) for h in hists), "diverging_steps": 0}
+    for h, (a, k) in zip(hists, spans):
+        o = outs[a:a + k]
+        i = 1 + len(h.preload) + 1
+        for j, op in enumerate(h.ops):
+            if op[0] == "session":
+                i += 1
+                continue
+            if o[i].endswith(" GENDIFF"):
+                info["diverging_steps"] += 1
+                if len(found) < 400:
+                    cut = gw.Hist(h.version, h.metric, list(h.preload), list(h.ops[:j + 1]))
+                    nodes = sorted({p[1] for p in h.preload if p[0] == "node"} | {1, 2})
+                    for nid in nodes[:4]:
+                        for t in (22, 32):
+                            cut.ops.append(("recv", f"{nid};255;3;0;{t};7", (), gw.DEFAULT_TIME))
+                    cut.ops.append(("recv", "0;255;3;0;9;probe", (), gw.DEFAULT_TIME))
+                    found.append(cut)
+                break
+            i += 2
+    found.sort(key=lambda h: len(h.ops))
+    return found[:40], info
+
+
 def run(prop: str, tier: str, replay: str | None) -> int:
     t0 = time.time()
     seed = int(os.environ.get("VERIF_SEED", "0"))
@@ -310,6 +401,22 @@ def run(prop: str, tier: str, replay: str | None) -> int:
         problems.append("correspondence harness crashed: " + traceback.format_exc()[-1500:])
     if not model_ok:
         problems.append("the executable model no longer builds against the regenerated tables")
+    # 4b. a broken tie: search for a concrete input where the code (as translated) leaves the model
+    tie_broken = tie and any(m == TIE_MOD for m, _ in failed)
+    if tie_broken and model_ok and corr is not None and not corr.violations:
+        try:
+            extra, info = tie_search(seed, tier)
+            report["tie_search"] = info
+            if extra:
+                lib.EXTRA_HISTORIES[:] = extra
+                corr2 = getattr(mod, funcname)(ctx)
+                info["oracle_violations_on_diverging_histories"] = len(corr2.violations)
+                if corr2.violations:
+                    corr = corr2
+        except Exception:  # noqa: BLE001
+            report["tie_search"] = {"error": traceback.format_exc()[-800:]}
+        finally:
+            lib.EXTRA_HISTORIES[:] = []
 
     # 5. decide
     known = load_known(prop)
@@ -364,6 +471,7 @@ def run(prop: str, tier: str, replay: str | None) -> int:
         "axioms": axioms,
         "extraction": report["extraction"],
         "body_translation": report.get("translation", "not used by this property"),
+        "tie_search": report.get("tie_search", "not needed (every equality of BodiesEq checks)" if tie else "n/a"),
         "extraction_ok": extraction_ok,
         "model_builds": model_ok,
         "leanchecker": report.get("leanchecker", "not run (quick tier)"),
